@@ -66,7 +66,7 @@ RULE = ("one evaluation = one (program, optimisation level, rvc) job: the real c
         "is executed symbolically next to the IR reference and compared by the solver for all inputs; non-trivial = more than one path")
 
 MAX_STEPS = 400
-HELPER_STEPS = 70      # ARM: instructions inside ppci's runtime helper routines (__sdiv: a shift-subtract loop) per run
+HELPER_STEPS = 40      # ARM: instructions inside ppci's runtime helper routines (__sdiv: a shift-subtract loop) per run
 M32 = 0xFFFFFFFF
 
 
@@ -113,7 +113,7 @@ class CodegenHarness(Harness):
             self.name = f"armcode[{prog}|O{self.level}{ext}]"
             self.params = dict(prog=prog, level=self.level, argext=argext, march=march)
         if os.environ.get("VERIF_TIER_ACTIVE", "quick") == "quick":
-            self.max_paths = 120
+            self.max_paths = 120 if march == "riscv" else 60
 
     def built(self):
         src, kind, entry, ext = _c05progs.get(self.prog)
